@@ -939,6 +939,8 @@ def select__attribute_kind_test_or_axis(self: XPathToken, context: ta.ContextTyp
     if context is None:
         raise self.missing_context()
     elif self.label == 'axis':
+        if isinstance(context.item, AttributeNode):
+            return  # the attribute axis of an attribute node is empty
         for _ in context.iter_attributes():
             yield from cast(Iterator[AttributeNode], self[0].select(context))
     elif not self:
